@@ -5,8 +5,8 @@ datagrams (wrong request-id / community / msgID) at offsets with gaps < T spread
 reply before (0.2T..0.7T) or after (1.3T..2T) the deadline; x {sync, async} x {v1, v2c, v3}.  Schedules run in parallel
 worker processes (one schedule per process at a time).
 Oracle: a matching reply that arrives before T is delivered; otherwise TimeoutError after at most T + slack
-(slack = max(0.12 s, 0.5 T)).  This is the one property whose oracle reads the wall clock: an overrun is re-run twice
-more in isolation and reported only if all three runs overrun; disagreement is recorded as scheduling noise.
+(slack = max(0.12 s, 0.5 T)).  This is the one property whose oracle reads the wall clock: a suspected violation is re-run twice
+in isolation on a copy of the schedule with all times tripled and reported only if both re-runs fail as well; disagreement is recorded as scheduling noise.
 """
 import multiprocessing as mp
 import os
@@ -258,6 +258,15 @@ def judge_call(sched, i, r):
     return None
 
 
+def scaled(sched, k):
+    """The same schedule with every time multiplied by k: a real defect reproduces at any scale, scheduling noise does not."""
+    s2 = dict(sched)
+    s2["T"] = sched["T"] * k
+    s2["calls"] = [dict(c, strays=[round(t * k, 4) for t in c["strays"]], reply_at=None if c["reply_at"] is None else round(c["reply_at"] * k, 4))
+                   for c in sched["calls"]]
+    return s2
+
+
 def judge(sched, results):
     for i, r in enumerate(results):
         j = judge_call(sched, i, r)
@@ -329,9 +338,10 @@ def run(rep, tier):
             sig, msg, timing = j
             if timing:
                 # confirm in isolation, twice
+                big = scaled(s, 3)
                 with ctx.Pool(1) as pool:
-                    again = [pool.apply(run_schedule, ((s, pkg),)) for _ in range(2)]
-                js = [judge(s, a) for a in again]
+                    again = [pool.apply(run_schedule, ((big, pkg),)) for _ in range(2)]
+                js = [judge(big, a) for a in again]
                 if all(x is not None for x in js):
                     rep.violation(sig, {"schedule": s, "runs": [r] + again}, msg + "; reproduced in 2 isolated re-runs: %s" % [[round(x["elapsed"], 3) for x in a] for a in again])
                     if len(rep.violations) >= 3:
@@ -353,8 +363,9 @@ def replay(rep, case, body=None):
     pkg = build.ensure_ext()
     s = case["schedule"]
     ctx = mp.get_context("spawn")
+    big = scaled(s, 3)
     with ctx.Pool(1) as pool:
-        runs = [pool.apply(run_schedule, ((s, pkg),)) for _ in range(3)]
-    js = [judge(s, r) for r in runs]
+        runs = [pool.apply(run_schedule, ((big, pkg),)) for _ in range(3)]
+    js = [judge(big, r) for r in runs]
     if all(j is not None for j in js):
         rep.violation(js[0][0], case, js[0][1])
